@@ -143,7 +143,17 @@ def run_state(desc):
             if poly:
                 big = any(sc.SIZES[t][si][0] == "icosphere" for t, si in ((desc["ta"], desc["sa"]), (tb, desc["sa"] if kind in ("identical", "same") else desc["sb"]))
                           if t in ("mesh", "hull"))
-                v = _viol("capacity_assertion_on_polytopes", cls + (":icosphere42" if big else ":small_polytopes"), {"perm": perm})
+                tag = ":icosphere42" if big else ":small_polytopes"
+                if big:
+                    # the recorded finding is the documented capacity parameter itself: recognised when the same call with a
+                    # larger capacity succeeds with the exact depth (otherwise it is some other way of failing)
+                    try:
+                        m2, _, ok2 = epa.epa(np.ascontiguousarray(sx), A, B, max_iter=2000, max_loose_edges=1024, max_faces=2048)
+                        if ok2 and abs(float(np.linalg.norm(m2)) - gstar) <= 2e-6 * s["truth"]["L"]:
+                            tag += ":succeeds_with_larger_capacity"
+                    except Exception:  # noqa
+                        pass
+                v = _viol("capacity_assertion_on_polytopes", cls + tag, {"perm": perm})
                 if v["sig"] not in seen_sig:
                     seen_sig.add(v["sig"])
                     viol.append(v)
